@@ -81,6 +81,7 @@ def run(rep):
         rep.evaluations += 1
         if np.abs(w[-1]).max() > 0:
             rep.nontrivial += 1
+        gen.perturb(traj, rng)
         tm = TrajectoryMetrics(traj)
         if b % 2:
             # the order in which the (memoised) metrics are asked for must not matter
